@@ -78,6 +78,10 @@ def build_scn(c, seed=0, coolant=None, dz_user=None):
                    ducts=nd, oftf=oftf, corr=tuple(c['fam']),
                    duct_t=dk.get('duct_t', 0.0025), byp_t=dk.get('byp_t', 0.003),
                    bypass_fraction=dk.get('bypass_fraction'), regions=regions, lowfi=lowfi)
+    if c.get('sf') == 'CT':
+        dsn['corr_shapefactor'] = 'CT'        # conduction shape factor from the Cheng-Todreas correlation
+    elif c.get('sf'):
+        dsn['shape_factor'] = float(c['sf'])  # user-given conduction shape factor
     # flow rate from the target Reynolds number (own evaluation of A, De)
     flow = c.get('flow')
     if flow is None:
@@ -153,7 +157,7 @@ def cases_sweep(tier):
                     wall='flow', structure='bundle')
         for k, vals in (('power', ['pins', 'duct', 'cool']), ('wall', ['no_flow', 'duct_average']),
                         ('fam', [list(f) for f in FAMS_WIRE]), ('ducts', ['3', '3s', '3r']),
-                        ('design', ['d4', 'd5']),
+                        ('design', ['d4', 'd5']), ('sf', ['CT', 1.3]),
                         ('structure', ['multi', 'lf-simple', 'lf-6node'])):
             for v in vals:
                 c = dict(base)
@@ -206,6 +210,14 @@ def cases_sweep(tier):
                         for re in ('lam', 'trans', 'turb'):
                             out.append(dict(design=d, ducts=du, fam=list(FAMS_WIRE[0]), re=re, power='asym',
                                             wall=wall, structure='multi', cf=cf, planes='near'))
+        for d in ('d2', 'd3', 'b3'):
+            for sf in ('CT', 1.3, 0.7):
+                for du in ('1', '2f'):
+                    for re in ('lam', 'trans', 'turb'):
+                        for wall in ('none', 'flow'):
+                            fam = FAMS_BARE[0] if d == 'b3' else FAMS_WIRE[0]
+                            out.append(dict(design=d, ducts=du, fam=list(fam), re=re, power='asym', wall=wall,
+                                            structure='bundle', sf=sf))
         for d in ('d2', 'd3', 'b3'):
             for du in ('1', '2f', '2s'):
                 for ca in (False, True):
